@@ -171,7 +171,64 @@ def run_namemap(x):
     return x
 
 
+# ------------------------------------------------------------------------------- C13
+def gen_relabel(args):
+    T, PX, L, S, M = args["T"], args["PX"], args["L"], args["S"], args["MaxNode"]
+    slots = [(t, s) for t in range(T) for s in range(1, S + 1)]
+    asgs = []
+    for vals in itertools.product(range(-1, M + 1), repeat=len(slots)):
+        used = [v for v in vals if v != -1]
+        if len(set(used)) == len(used):
+            asgs.append(vals)
+    import random
+    rnd = random.Random(args.get("seed", 0))
+    arrays = list(itertools.product(range(L + 1), repeat=T * PX))
+    cap = args.get("cap")
+    for arr in arrays:
+        use = asgs if not cap else rnd.sample(asgs, min(cap, len(asgs)))
+        for vals in use:
+            nodes = [[v, t, s] for (t, s), v in zip(slots, vals) if v != -1]
+            rnd.shuffle(nodes)
+            yield {"seg": [list(arr[t * PX:(t + 1) * PX]) for t in range(T)], "nodes": nodes, "via": args.get("via", "fn")}
+
+
+def run_relabel(x):
+    import networkx as nx
+    seg = np.array(x["seg"], dtype=np.uint16)
+    T, PX = seg.shape
+    nodes = x["nodes"]
+    if x["via"] == "fn":
+        from funtracks.import_export._import_segmentation import relabel_segmentation
+        g = nx.DiGraph()
+        g.add_nodes_from([n[0] for n in nodes])
+        if not nodes:
+            x["out"] = [[0] * PX for _ in range(T)]
+            x["gnodes"] = []
+            x["skipped"] = True
+            return x
+        out = relabel_segmentation(seg.reshape(T, 1, PX), g, [n[0] for n in nodes], [n[2] for n in nodes],
+                                   [n[1] for n in nodes])
+        x["out"] = [[int(v) for v in row] for row in np.asarray(out).reshape(T, PX)]
+        x["gnodes"] = sorted(int(n) for n in g.nodes)
+    else:
+        import pandas as pd
+        from funtracks.import_export.csv._import import tracks_from_df
+        if not nodes:
+            x["out"] = [[0] * PX for _ in range(T)]
+            x["gnodes"] = []
+            x["skipped"] = True
+            return x
+        df = pd.DataFrame({"id": [n[0] for n in nodes], "time": [n[1] for n in nodes], "seg_id": [n[2] for n in nodes],
+                           "parent_id": [-1] * len(nodes), "y": [0.0] * len(nodes), "x": [0.0] * len(nodes)})
+        tr = tracks_from_df(df, segmentation=seg.reshape(T, 1, PX),
+                            node_name_map={"id": "id", "time": "time", "seg_id": "seg_id", "parent_id": "parent_id"})
+        x["out"] = [[int(v) for v in row] for row in np.asarray(tr.segmentation).reshape(T, PX)]
+        x["gnodes"] = sorted(int(n) for n in tr.graph.nodes)
+    return x
+
+
 PARTS = {
+    "relabel": (gen_relabel, run_relabel),
     "namemap": (gen_namemap, run_namemap),
     "cand_points": (gen_cand_points, run_cand_points),
     "cand_seg": (gen_cand_seg, run_cand_seg),
